@@ -425,12 +425,26 @@ def _sec(w: W, Q: tuple[int, int], prefix: int) -> bytes:
     return bytes([prefix]) + x + (b"" if prefix in (2, 3) else y)
 
 
+# x-coordinates of the points of order two of the catalogued curves whose cofactor is even (x^3 + ax + b = 0 mod p)
+TWO_TORSION_X = {"secp112r2": 3610075134545239076002374364665933, "secp128r2": 311198077076599516590082177721943503641}
+
+
 def _op_codec(w: W) -> Op:
     ch = w.ch
     Q = w.point("codec.Q", inf_ok=False)
     assert Q is not None
-    shape = ch.weighted([("compressed", 3), ("uncompressed", 3), ("hybrid", 1), ("hybrid-unasked", 1), ("hybrid-wrong-parity", 1), ("off-curve-octets", 2)], "codec.shape")
+    shape = ch.weighted([("compressed", 3), ("uncompressed", 3), ("hybrid", 1), ("hybrid-unasked", 1), ("hybrid-wrong-parity", 1), ("off-curve-octets", 2), ("two-torsion-x", 2)], "codec.shape")
     w.ctx.log("op", "codec", shape, Q)
+    if shape == "two-torsion-x":
+        # a curve with an even cofactor has a point of order two, (x0, 0), outside the prime-order subgroup, and y = 0 is
+        # how this library spells infinity: octets naming that x name no point of the group, under either parity prefix
+        # (the uncompressed spelling is refused as "no bytes representation for infinity point")
+        x0 = TWO_TORSION_X.get(w.label) if w.big else next((x for x in range(w.p) if (x * x * x + w.ref.a * x + w.ref.b) % w.p == 0), None)
+        if x0 is not None:
+            w.ctx.probe("two-torsion-x")
+            prefix = ch.pick([3, 2, 4], "codec.torsion.prefix")
+            return "codec-refusal", lambda ec: point_from_octets(_sec(w, (x0, 0), prefix), ec), ("refuse",)
+        shape = "compressed"
     if shape in ("compressed", "uncompressed"):
         compressed = shape == "compressed"
         octets = _sec(w, Q, 2 + Q[1] % 2 if compressed else 4)
